@@ -22,10 +22,13 @@ import (
 	"net/http"
 	"net/http/httptest"
 	"net/url"
+	"reflect"
+	"regexp"
 	"sort"
 	"strings"
 	"sync/atomic"
 	"testing"
+	"time"
 
 	envoy_auth "github.com/envoyproxy/go-control-plane/envoy/service/auth/v3"
 	"github.com/rs/zerolog"
@@ -89,8 +92,14 @@ func (c08Factory) CreateFinalizer(_, _ string, _ config.MechanismConfig) (finali
 	return nil, errC08Unsupported
 }
 
+type c08Swallow struct{}
+
+func (c08Swallow) ID() string                                                   { return "swallow" }
+func (c08Swallow) Execute(heimdall.Context, error) error                        { return nil }
+func (c08Swallow) WithConfig(map[string]any) (errorhandlers.ErrorHandler, error) { return c08Swallow{}, nil }
+
 func (c08Factory) CreateErrorHandler(_, _ string, _ config.MechanismConfig) (errorhandlers.ErrorHandler, error) {
-	return nil, errC08Unsupported
+	return c08Swallow{}, nil
 }
 
 // ---- inputs --------------------------------------------------------------------
@@ -102,7 +111,7 @@ type c08Seg struct {
 
 type c08Route struct {
 	Pat    []c08Seg    `json:"pat"`
-	Params [][2]string `json:"params,omitempty"`
+	Params [][3]string `json:"params,omitempty"` // name, value / pattern, type (exact | glob | regex)
 }
 
 type c08Rw struct {
@@ -122,6 +131,7 @@ type c08Rule struct {
 	Setting string      `json:"setting"` // off | on | no_decode | "" (= off)
 	Routes  []c08Route  `json:"routes"`
 	Backend *c08Backend `json:"backend,omitempty"`
+	OnError bool        `json:"on_error,omitempty"`
 }
 
 type c08Case struct {
@@ -131,6 +141,7 @@ type c08Case struct {
 	Raw     string    `json:"raw"`
 	Raw2    string    `json:"raw2"`
 	Query   string    `json:"query"`
+	Method  string    `json:"method,omitempty"` // "" = GET; the answer must not depend on it (no rule restricts methods)
 }
 
 type c08Up struct {
@@ -152,8 +163,9 @@ type c08Out struct {
 }
 
 type c08Obs struct {
-	A c08Out `json:"a"`
-	B c08Out `json:"b"`
+	A      c08Out `json:"a"`
+	B      c08Out `json:"b"`
+	Stable bool   `json:"stable"` // the repeated requests (after a history, other order) got the same answers
 }
 
 // ---- the system under test ----------------------------------------------------
@@ -202,10 +214,16 @@ func c08Build(c c08Case) (rule.Executor, error) {
 			Execute:                []config.MechanismConfig{{"authenticator": r.ID}},
 		}
 
+		// a rule-level error handler that swallows every error it is given: the encoded-slash error must not
+		// travel through it (it is raised before the pipeline runs)
+		if r.OnError {
+			rc.ErrorHandler = []config.MechanismConfig{{"error_handler": "swallow"}}
+		}
+
 		for _, rt := range r.Routes {
 			route := config2.Route{Path: c08PathExpr(rt.Pat)}
 			for _, p := range rt.Params {
-				route.PathParams = append(route.PathParams, config2.ParameterMatcher{Name: p[0], Value: p[1], Type: "exact"})
+				route.PathParams = append(route.PathParams, config2.ParameterMatcher{Name: p[0], Value: p[1], Type: p[2]})
 			}
 
 			rc.Matcher.Routes = append(rc.Matcher.Routes, route)
@@ -281,12 +299,19 @@ func c08NewServer() *c08Server {
 }
 
 // send writes the request target byte for byte (no client-side normalisation).
-func (s *c08Server) send(host, raw, query string) c08Out {
+func (s *c08Server) send(method, host, raw, query string) c08Out {
+	if method == "" || raw == "*" {
+		method = "GET"
+	}
+
 	conn, err := (&net.Dialer{}).DialContext(context.Background(), "tcp", s.srv.Listener.Addr().String())
 	if err != nil {
 		return c08Out{Kind: "other", Err: err.Error()}
 	}
 	defer conn.Close()
+
+	// a guard against a hung handler only; no decision depends on the clock
+	_ = conn.SetDeadline(time.Now().Add(60 * time.Second))
 
 	target := raw
 	if query != "" {
@@ -294,7 +319,7 @@ func (s *c08Server) send(host, raw, query string) c08Out {
 	}
 
 	s.last.Store(nil)
-	fmt.Fprintf(conn, "GET %s HTTP/1.1\r\nHost: %s\r\nConnection: close\r\n\r\n", target, host)
+	fmt.Fprintf(conn, "%s %s HTTP/1.1\r\nHost: %s\r\nConnection: close\r\n\r\n", method, target, host)
 
 	resp, err := http.ReadResponse(bufio.NewReader(conn), nil)
 	if err != nil {
@@ -316,6 +341,18 @@ func (s *c08Server) send(host, raw, query string) c08Out {
 	return *out
 }
 
+// c08Twins are requests that are NOT equivalent to raw but close to it: the encoded slashes decoded, every
+// '%' encoded once more, and a path no rule knows.  They are sent before raw / raw2 are sent a second time
+// to the same repository: the answer to a request must not depend on what was asked before.
+func c08Twins(raw string) []string {
+	t1 := strings.ReplaceAll(strings.ReplaceAll(raw, "%2F", "/"), "%2f", "/")
+	t2 := strings.ReplaceAll(raw, "%", "%25")
+
+	return []string{t1, t2, "/zz-no-such-path", c08Decoded(raw)}
+}
+
+func c08SameOut(a, b c08Out) bool { return reflect.DeepEqual(a, b) }
+
 func c08Run(s *c08Server, c c08Case) (c08Obs, error) {
 	exec, err := c08Build(c)
 	if err != nil {
@@ -324,7 +361,28 @@ func c08Run(s *c08Server, c c08Case) (c08Obs, error) {
 
 	s.exec.Store(&exec)
 
-	return c08Obs{A: s.send(c.Host, c.Raw, c.Query), B: s.send(c.Host, c.Raw2, c.Query)}, nil
+	o := c08Obs{A: s.send(c.Method, c.Host, c.Raw, c.Query), B: s.send(c.Method, c.Host, c.Raw2, c.Query)}
+
+	// the same requests against a second, fresh repository, after a history of other requests, in the
+	// other order
+	exec2, err := c08Build(c)
+	if err != nil {
+		return c08Obs{}, err
+	}
+
+	s.exec.Store(&exec2)
+
+	for _, t := range c08Twins(c.Raw) {
+		if strings.HasPrefix(t, "/") && !strings.ContainsAny(t, " ?#") {
+			s.send("GET", c.Host, t, "")
+		}
+	}
+
+	b2 := s.send(c.Method, c.Host, c.Raw2, c.Query)
+	a2 := s.send(c.Method, c.Host, c.Raw, c.Query)
+	o.Stable = c08SameOut(o.A, a2) && c08SameOut(o.B, b2)
+
+	return o, nil
 }
 
 // ---- generator -------------------------------------------------------------------
@@ -600,22 +658,102 @@ func c08Gen(r *vf.Rand) c08Case {
 	}
 }
 
+func c08Printable(s string) bool {
+	for i := 0; i < len(s); i++ {
+		if s[i] <= 0x20 || s[i] >= 0x7f {
+			return false
+		}
+	}
+
+	return true
+}
+
+// c08RandValue builds a segment from random tokens: unreserved octets, sub-delimiters and escapes of
+// arbitrary octets (with a bias to the ones decoders get wrong) in either hex case.
+func c08RandValue(r *vf.Rand) string {
+	var sb strings.Builder
+
+	for k := r.Range(1, 5); k > 0; k-- {
+		switch {
+		case r.Chance(35):
+			sb.WriteByte("abcdefghijklmnopqrstuvwxyzABCDEFGHIJKLMNOPQRSTUVWXYZ0123456789-._~"[r.Intn(66)])
+		case r.Chance(25):
+			sb.WriteByte("!$&'()*+,;=:@"[r.Intn(13)])
+		default:
+			b := byte(r.Intn(256))
+			if r.Chance(60) {
+				b = vf.Pick(r, []byte{0x00, 0x5c, 0x3f, 0x23, 0x3b, 0x2f, 0x25, 0x20, 0x7e, 0x41, 0x61, 0x24, 0x2e, 0x2b, 0x0a, 0x7f, 0xc3, 0xa9})
+			}
+
+			hex := "0123456789ABCDEF"
+			if r.Bool() {
+				hex = "0123456789abcdef"
+			}
+
+			sb.WriteByte('%')
+			sb.WriteByte(hex[b>>4])
+			sb.WriteByte(hex[b&15])
+		}
+	}
+
+	return sb.String()
+}
+
+var (
+	c08Globs   = []string{"*", "a*", "*b", "{admin,john,42}", "a?b", "**", "[a-z]*", "*%2F*", "*/*"}
+	c08Regexes = []string{"^a", "^[a-z]+$", "b$", "^(admin|42|john)$", "%2[Ff]", "^[^/]+$", "/", "^.{1,3}$"}
+)
+
+// c08Param makes a path_params entry for the wanted value: exact, or a glob / regex (from a pool, or derived
+// from the value) whose answers the driver records from the real matcher.
+func c08Param(r *vf.Rand, name, want string) [3]string {
+	switch {
+	case r.Chance(60):
+		return [3]string{name, want, "exact"}
+	case r.Chance(50):
+		if r.Chance(50) && c08Printable(want) && !strings.ContainsAny(want, "*?[]{}\\,!") {
+			return [3]string{name, want[:1] + "*", "glob"}
+		}
+
+		return [3]string{name, vf.Pick(r, c08Globs), "glob"}
+	default:
+		if r.Chance(50) && c08Printable(want) {
+			return [3]string{name, "^" + regexp.QuoteMeta(want) + "$", "regex"}
+		}
+
+		return [3]string{name, vf.Pick(r, c08Regexes), "regex"}
+	}
+}
+
 func c08Gen1(r *vf.Rand) c08Case {
 	c := c08Case{Host: "h.example.com", Default: r.Chance(40)}
 
-	// a base request: 1..4 segments, literal words and values
+	c.Method = vf.Pick(r, []string{"", "", "", "POST", "OPTIONS", "HEAD", "PUT", "DELETE"})
+
+	// a base request: 1..4 segments (rarely 17..40), literal words, pool values and random values
 	nseg := r.Range(1, 4)
+	if r.Chance(3) {
+		nseg = r.Range(17, 40)
+	}
+
 	base := make([]string, nseg)
 
 	for i := range base {
 		switch {
-		case r.Chance(55):
+		case r.Chance(50):
 			base[i] = vf.Pick(r, c08Lits)
 		case r.Chance(8):
 			base[i] = ""
+		case r.Chance(35):
+			base[i] = c08RandValue(r)
 		default:
 			base[i] = vf.Pick(r, c08Values)
 		}
+	}
+
+	// rarely one very long segment (the whole path > 2 KiB)
+	if r.Chance(1) {
+		base[r.Intn(nseg)] = strings.Repeat(vf.Pick(r, []string{"ab%2Fc", "x%41", "y-"}), r.Range(400, 600)) + c08RandValue(r)
 	}
 
 	// rules derived from the base path: literal at some positions, generalised at others
@@ -635,12 +773,14 @@ func c08Gen1(r *vf.Rand) c08Case {
 				plen = r.Range(1, 4)
 			}
 
+			rl.OnError = r.Chance(40)
+
 			for i := 0; i < plen; i++ {
 				lit := vf.Pick(r, c08Lits)
 				if i < nseg && r.Chance(80) {
 					// the literal spelling a rule author would write: decoded, if it is a plain word
 					d := c08Decoded(base[i])
-					if d != "" && !strings.ContainsAny(d, "/%:*\\") && d[0] != ':' && d[0] != '*' {
+					if d != "" && !strings.ContainsAny(d, "/%:*\\") && d[0] != ':' && d[0] != '*' && c08Printable(d) {
 						lit = d
 					}
 				}
@@ -658,7 +798,7 @@ func c08Gen1(r *vf.Rand) c08Case {
 						}
 
 						if want != "" {
-							rt.Params = append(rt.Params, [2]string{name, want})
+							rt.Params = append(rt.Params, c08Param(r, name, want))
 						}
 					}
 
@@ -677,7 +817,7 @@ func c08Gen1(r *vf.Rand) c08Case {
 						}
 
 						if want != "" {
-							rt.Params = append(rt.Params, [2]string{name, want})
+							rt.Params = append(rt.Params, c08Param(r, name, want))
 						}
 					}
 				case r.Chance(4):
@@ -768,11 +908,109 @@ func c08CoqSeg(s c08Seg) string {
 	return "(Lit " + vf.CoqStr(s.V) + ")"
 }
 
-func c08CoqRule(r c08Rule) string {
+// c08DecodeKeepSlash decodes every escape except the encoded slash, which is written %2F ("" if malformed).
+func c08DecodeKeepSlash(v string) string {
+	var sb strings.Builder
+
+	for i := 0; i < len(v); {
+		if v[i] != '%' {
+			sb.WriteByte(v[i])
+			i++
+
+			continue
+		}
+
+		if i+2 >= len(v) || !c08IsHex(v[i+1]) || !c08IsHex(v[i+2]) {
+			return ""
+		}
+
+		if b := c08Unhex(v[i+1])<<4 | c08Unhex(v[i+2]); b == '/' {
+			sb.WriteString("%2F")
+		} else {
+			sb.WriteByte(b)
+		}
+
+		i += 3
+	}
+
+	return sb.String()
+}
+
+// c08OracleValues are the strings a typed matcher of the case can be asked about: every piece (segment, or
+// rest of the path from a segment on) of the paths heimdall may look up for raw and raw2, as it is, decoded,
+// and decoded except for the encoded slash.
+func c08OracleValues(c c08Case) []string {
+	seen := map[string]bool{}
+
+	var vals []string
+
+	add := func(v string) {
+		if !seen[v] {
+			seen[v] = true
+			vals = append(vals, v)
+		}
+	}
+
+	for _, raw := range []string{c.Raw, c.Raw2} {
+		for _, p := range []string{raw, c08LookupPath(raw)} {
+			if !strings.HasPrefix(p, "/") {
+				continue
+			}
+
+			segs := strings.Split(p[1:], "/")
+			pieces := append([]string{}, segs...)
+
+			for k := range segs {
+				pieces = append(pieces, strings.Join(segs[k:], "/"))
+			}
+
+			for _, v := range pieces {
+				add(v)
+
+				d, _ := url.PathUnescape(v)
+				add(d)
+				add(c08DecodeKeepSlash(v))
+			}
+		}
+	}
+
+	sort.Strings(vals)
+
+	return vals
+}
+
+// c08CoqParam renders one path_params entry; for glob / regex the REAL matcher (typed_matcher.go: gobwas/glob
+// with separator '/', regexp) is asked about every oracle value and the answers are the model's table.
+func c08CoqParam(p [3]string, vals []string) string {
+	if p[2] == "exact" {
+		return vf.CoqPair(vf.CoqStr(p[0]), "(px "+vf.CoqStr(p[1])+")")
+	}
+
+	var (
+		tm  typedMatcher
+		err error
+	)
+
+	if p[2] == "glob" {
+		tm, err = newGlobMatcher(p[1], '/')
+	} else {
+		tm, err = newRegexMatcher(p[1])
+	}
+
+	if err != nil {
+		panic(fmt.Sprintf("c08: pattern %q (%s) does not compile: %v", p[1], p[2], err))
+	}
+
+	rows := vf.CoqListOf(vals, func(v string) string { return vf.CoqPair(vf.CoqStr(v), vf.CoqBool(tm.match(v))) })
+
+	return vf.CoqPair(vf.CoqStr(p[0]), "(pt "+rows+")")
+}
+
+func c08CoqRule(r c08Rule, vals []string) string {
 	setting := map[string]string{"off": "Off", "": "Off", "on": "On", "no_decode": "NoDecode"}[r.Setting]
 	routes := vf.CoqListOf(r.Routes, func(rt c08Route) string {
 		return vf.CoqApp("rt", vf.CoqListOf(rt.Pat, c08CoqSeg),
-			vf.CoqListOf(rt.Params, func(p [2]string) string { return vf.CoqPair(vf.CoqStr(p[0]), vf.CoqStr(p[1])) }))
+			vf.CoqListOf(rt.Params, func(p [3]string) string { return c08CoqParam(p, vals) }))
 	})
 
 	be := "None"
@@ -823,8 +1061,10 @@ func c08Coq(c c08Case, o c08Obs) string {
 	oa, ua := c08CoqOut(o.A)
 	ob, ub := c08CoqOut(o.B)
 
-	return vf.CoqApp("c8", vf.CoqListOf(c.Rules, c08CoqRule), vf.CoqBool(c.Default), vf.CoqStr(c.Host),
-		vf.CoqStr(c.Raw), vf.CoqStr(c.Raw2), vf.CoqStr(c.Query), oa, ua, ob, ub)
+	vals := c08OracleValues(c)
+
+	return vf.CoqApp("c8", vf.CoqListOf(c.Rules, func(r c08Rule) string { return c08CoqRule(r, vals) }), vf.CoqBool(c.Default),
+		vf.CoqStr(c.Host), vf.CoqStr(c.Raw), vf.CoqStr(c.Raw2), vf.CoqStr(c.Query), oa, ua, ob, ub, vf.CoqBool(o.Stable))
 }
 
 func c08HasEncSlash(s string) bool {
@@ -923,7 +1163,7 @@ func c08Corpus() []c08Case {
 		{Rules: []c08Rule{one("w", "on", up, wild("p0"))}, Host: "h", Raw: "/a%2Fb", Raw2: "/a%2fb"},
 		{Rules: []c08Rule{}, Default: true, Host: "h", Raw: "/a%2Fb", Raw2: "/a%2fb"},
 		// C08-F3: path_params under off compare the still-encoded value
-		{Rules: []c08Rule{{ID: "pp", Setting: "off", Backend: up, Routes: []c08Route{{Pat: []c08Seg{lit("api"), wild("p1")}, Params: [][2]string{{"p1", "admin"}}}}}},
+		{Rules: []c08Rule{{ID: "pp", Setting: "off", Backend: up, Routes: []c08Route{{Pat: []c08Seg{lit("api"), wild("p1")}, Params: [][3]string{{"p1", "admin", "exact"}}}}}},
 			Host: "h", Raw: "/api/admin", Raw2: "/api/%61dmin"},
 		// C08-F4: a byte net/url does not accept in a raw path makes EscapedPath re-encode: the encoded slash is decoded before any check
 		{Rules: []c08Rule{one("w", "off", up, lit("a"), lit("b\""))}, Host: "h", Raw: "/a%2Fb\"", Raw2: "/a%2Fb\""},
@@ -934,7 +1174,7 @@ func c08Corpus() []c08Case {
 		{Rules: []c08Rule{one("nd", "no_decode", up, lit("files"), all("rest"))}, Host: "h", Raw: "/files/a%2fb", Raw2: "/files/a%2Fb/c%20d"},
 		{Rules: []c08Rule{one("on", "on", up, lit("files"), all("rest"))}, Host: "h", Raw: "/files/a%2fb", Raw2: "/files/a%2Fb/c%20d"},
 		// C08_reencoding_invariant_nonvacuous
-		{Rules: []c08Rule{{ID: "users", Setting: "no_decode", Backend: up, Routes: []c08Route{{Pat: []c08Seg{lit("api"), lit("users"), wild("id")}, Params: [][2]string{{"id", "j%2Fd"}}}}},
+		{Rules: []c08Rule{{ID: "users", Setting: "no_decode", Backend: up, Routes: []c08Route{{Pat: []c08Seg{lit("api"), lit("users"), wild("id")}, Params: [][3]string{{"id", "j%2Fd", "exact"}}}}},
 			one("any", "on", up, lit("api"), all("rest"))}, Host: "h", Raw: "/api/users/j%2Fd", Raw2: "/api/users/%6A%2F%64"},
 		// the asterisk form and targets net/http refuses
 		{Rules: []c08Rule{one("w", "on", up, wild("p0"))}, Default: true, Host: "h", Raw: "*", Raw2: "*"},
@@ -970,11 +1210,11 @@ func TestVerifC08(t *testing.T) {
 		if vf.Want(idx) {
 			o, err := c08Run(srv, c)
 			if err != nil {
-				t.Fatalf("case %d: rule set not loadable: %v (%+v)", idx, err, c)
+				t.Fatalf("case %d: rule set not loadable: %q (%q)", idx, err, fmt.Sprintf("%+v", c))
 			}
 
 			if o.A.Kind == "other" || o.B.Kind == "other" {
-				t.Fatalf("case %d: unexpected outcome %+v for %+v", idx, o, c)
+				t.Fatalf("case %d: unexpected outcome %q for %q", idx, fmt.Sprintf("%+v", o), fmt.Sprintf("%+v", c))
 			}
 
 			w.Put(vf.Obs{
@@ -1051,12 +1291,26 @@ func TestVerifC08Envoy(t *testing.T) {
 		if vf.Want(idx) {
 			exec, err := c08Build(c)
 			if err != nil {
-				t.Fatalf("case %d: rule set not loadable: %v (%+v)", idx, err, c)
+				t.Fatalf("case %d: rule set not loadable: %q (%q)", idx, err, fmt.Sprintf("%+v", c))
 			}
 
 			o := c08Obs{A: c08Envoy(exec, c.Host, c.Raw, c.Query), B: c08Envoy(exec, c.Host, c.Raw2, c.Query)}
+
+			exec2, err := c08Build(c)
+			if err != nil {
+				t.Fatalf("case %d: rule set not loadable: %q (%q)", idx, err, fmt.Sprintf("%+v", c))
+			}
+
+			for _, tw := range c08Twins(c.Raw) {
+				c08Envoy(exec2, c.Host, tw, "")
+			}
+
+			b2 := c08Envoy(exec2, c.Host, c.Raw2, c.Query)
+			a2 := c08Envoy(exec2, c.Host, c.Raw, c.Query)
+			o.Stable = c08SameOut(o.A, a2) && c08SameOut(o.B, b2)
+
 			if o.A.Kind == "other" || o.B.Kind == "other" {
-				t.Fatalf("case %d: unexpected outcome %+v for %+v", idx, o, c)
+				t.Fatalf("case %d: unexpected outcome %q for %q", idx, fmt.Sprintf("%+v", o), fmt.Sprintf("%+v", c))
 			}
 
 			tags := c08Tags(c, o)
